@@ -130,7 +130,7 @@ def step(chk, kind, arr, n, r):
     return None, None, "bad"
 
 
-def bad_requests(chk, kind, arr, n, r):
+def bad_requests(chk, kind, arr, n, r, els_now):
     """invalid requests raise what pandas expects (compared with the Lean spec)"""
     cases = []
     for _ in range(6):
@@ -142,6 +142,11 @@ def bad_requests(chk, kind, arr, n, r):
     lines = [f"take {n} {int(c[1])} {tok(c[2])}" if c[0] == "take" else f"getitem {n} {c[2]}" for c in cases]
     outs = drive(lines)
     for c, o in zip(cases, outs):
+        if c[0] == "getitem" and o not in ("IndexError", "ValueError"):
+            e = els_now[int(o)]
+            if e is not None and (nested_empty(kind, e) or not geo.verts_of(kind, e)):
+                chk.drifted(f"{kind}: arr[i] cannot represent an element with an empty ring/part (scalar form)", e)
+                continue
         try:
             if c[0] == "take":
                 res = arr.take(c[2], allow_fill=c[1])
@@ -188,7 +193,7 @@ def run_sequence(chk, kind, st, els, r, length):
                           dict(api="derivation step", kind=kind, subtype=st, elements=els, history=hist, error=repr(e)[:300]))
             return
         if new is None:
-            bad_requests(chk, kind, cur, n, r)
+            bad_requests(chk, kind, cur, n, r, [None if i is None else els[i] for i in cur_idx])
             continue
         hist.append(desc)
         cur_idx = [None if i is None else cur_idx[i] for i in idx]
